@@ -292,11 +292,18 @@ func (r *Runner) monC05(s *Step, rep *Reply) {
 		var diffs []string
 		// An empty cpuset string in the cache means "not pinned": NRI cannot transmit it
 		// ("" = no change), so it is not comparable with the runtime's value.
+		unmanaged := 0
 		if cr.Cpus != "" && !sameSetStr(cr.Cpus, sh.Cpus) {
 			diffs = append(diffs, fmt.Sprintf("cpus cache=%q runtime=%q", cr.Cpus, sh.Cpus))
+			if r.Restarts > 0 && r.cpuOptOut(c) {
+				unmanaged++
+			}
 		}
 		if cr.Mems != "" && !sameSetStr(cr.Mems, sh.Mems) {
 			diffs = append(diffs, fmt.Sprintf("mems cache=%q runtime=%q", cr.Mems, sh.Mems))
+			if r.Restarts > 0 && r.memOptOut(c) {
+				unmanaged++
+			}
 		}
 		if cr.Cpus == "" && sh.Cpus != "" || cr.Mems == "" && sh.Mems != "" {
 			r.Count("c05_cache_unpinned_runtime_pinned")
@@ -325,6 +332,11 @@ func (r *Runner) monC05(s *Step, rep *Reply) {
 				// KF11: what the cache records for a container the policy could not allocate is not a decision; it can
 				// be older than what the runtime has (e.g. the values saved before the CreateContainer reply)
 				sg += ":unallocated-container"
+			} else if unmanaged == len(diffs) {
+				// KF7 again: the cache file is written only when pods/containers are inserted or deleted, so even the
+				// newest file can be older than what the runtime was last told; for a field the plugin does not manage for
+				// this container (opted out, pinning disabled by the configuration) nothing re-decides it after a restart
+				sg += ":unmanaged-field-after-restart"
 			}
 			r.Violate("C05", "view-mismatch", sg, "after %s: container %s (%s): %s", how, c.Key, c.State, strings.Join(diffs, "; "))
 		}
